@@ -1,5 +1,6 @@
 mod codec;
 mod model;
+mod pairs;
 mod replay;
 mod views;
 
@@ -60,6 +61,26 @@ fn do_replay<P: PT>(opts: &HashMap<String, String>) -> Value {
     replay::report_json(&rep, P::NAME, coll)
 }
 
+fn do_replay_pairs<P: PT>(opts: &HashMap<String, String>) -> Value {
+    let ctx = ctx_for::<P>(opts.get("ctx").map(|s| s.as_str()).unwrap_or("plain"));
+    let path = opts.get("rows").expect("--rows");
+    let f = std::fs::File::open(path).expect("rows file");
+    let mut rd = BufReader::with_capacity(1 << 20, f);
+    let maxmm = opts.get("max-mismatch").map(|s| s.parse().unwrap()).unwrap_or(20);
+    let coll = opts.get("coll").map(|s| s.as_str()).unwrap_or("map-map");
+    let mut rep = pairs::PairReport::default();
+    let rd = &mut rd as &mut dyn BufRead;
+    match coll {
+        "map-map" => pairs::replay_pairs::<P, PrefixMap<P, i32>, PrefixMap<P, i32>>(rd, &ctx, false, false, maxmm, &mut rep),
+        "map-str" => pairs::replay_pairs::<P, PrefixMap<P, i32>, pairs::StrMap<P>>(rd, &ctx, false, false, maxmm, &mut rep),
+        "map-set" => pairs::replay_pairs::<P, PrefixMap<P, i32>, PrefixSet<P>>(rd, &ctx, false, true, maxmm, &mut rep),
+        "set-map" => pairs::replay_pairs::<P, PrefixSet<P>, PrefixMap<P, i32>>(rd, &ctx, true, false, maxmm, &mut rep),
+        "set-set" => pairs::replay_pairs::<P, PrefixSet<P>, PrefixSet<P>>(rd, &ctx, true, true, maxmm, &mut rep),
+        other => panic!("unknown pair kind {other}"),
+    }
+    pairs::pair_report_json(&rep, P::NAME, coll)
+}
+
 fn main() {
     // panics of the code under test are data; keep stderr quiet
     std::panic::set_hook(Box::new(|_| {}));
@@ -68,6 +89,10 @@ fn main() {
         "replay" => {
             let t = opts.get("type").map(|s| s.as_str()).unwrap_or("u32");
             with_type!(t, do_replay(&opts))
+        }
+        "replay-pairs" => {
+            let t = opts.get("type").map(|s| s.as_str()).unwrap_or("u32");
+            with_type!(t, do_replay_pairs(&opts))
         }
         "types" => json!(ALL_TYPES),
         _ => {
